@@ -169,4 +169,13 @@ PROPS = {
                 "states deduplicated by generator counters, buffers, master parameters, file listing and MPD hash; after every upload the channel goroutine runs to quiescence under the vrt scheduler",
         "assumptions": ["media segments beyond the six bundled ones are the bundled ones with rewritten sequence number and decode time", "timeShiftBufferDepth 8 s with 3.84 s segments (window of 4)"],
     },
+    "C16": {
+        "parts": [{"pkg": "livesim", "test": "TestVerifC16", "env": {"GOMAXPROCS": "1"}}],
+        "clauses": ["C16.order", "C16.numbering", "C16.body", "C16.headers", "C16.count", "C16.last", "C16.delete", "C16.race"],
+        "level": "model_checking",
+        "rule": "for every (configuration, API program) scenario: every thread schedule and receiver-answer sequence with at most 1 (quick) / 2 (thorough) deviations (preemptions + non-200/slow answers) of the real cmafIngesterMgr + REST handlers + session goroutines under the vrt scheduler on the virtual clock; "
+                "configurations {Number, SegmentTimeline-time, SegmentTimeline-number} x {per-segment URLs, Streams()} x {plain, imsc1 subtitle tracks, generated stpp subtitles, chunked low-latency} x {no credentials, user+password, user only}; "
+                "programs: k steps (k=0..3/4) at several testNowMS, steps with concurrent DELETE, steps with concurrent info calls, two concurrent sessions, real-time with DELETE after 1/5/7.3 s, real-time and step mode with duration 4/6 s",
+        "assumptions": ["the receiver is an in-process http.RoundTripper: it reads the whole body, then answers; TCP-level behaviour of net/http is not modelled", "asset testpic_2s (2 s segments)"],
+    },
 }
